@@ -111,6 +111,44 @@ CATALOGUE = [
     ('c16_tachometer_reads_acceleration_sign', 'C16', 'gearpy/sensors/tachometer.py',
      "            return self.__target.angular_speed\n",
      "            return abs(self.__target.angular_speed)\n"),
+    # ---- C17
+    ('c17_reset_leaves_load_torque', 'C17', P,
+     "            for variable in element.time_variables.keys():\n                element.time_variables[variable] = []",
+     "            for variable in element.time_variables.keys():\n                if variable != 'load torque':\n                    element.time_variables[variable] = []"),
+    ('c17_pwm_appended_twice', 'C17', M,
+     "            self.time_variables['pwm'].append(self.pwm)\n",
+     "            self.time_variables['pwm'].append(self.pwm)\n            if len(self.time_variables['pwm']) == 7:\n                self.time_variables['pwm'].append(self.pwm)\n"),
+    ('c17_spur_skips_zero_stress', 'C17', 'gearpy/mechanical_objects/spur_gear.py',
+     "            if self.bending_stress_is_computable:\n                self.time_variables['bending stress'].append(\n",
+     "            if self.bending_stress_is_computable and self.bending_stress.value != 0:\n                self.time_variables['bending stress'].append(\n"),
+    ('c17_wormwheel_always_advertises_bending', 'C17', 'gearpy/mechanical_objects/worm_wheel.py',
+     "        else:\n            time_variables.pop('bending stress', None)\n",
+     "        else:\n            pass\n"),
+    ('c17_current_recorded_as_float', 'C17', M,
+     "            self.time_variables['electric current'].append(\n                self.electric_current\n            )",
+     "            self.time_variables['electric current'].append(\n                self.electric_current.value\n            )"),
+    # ---- C18
+    ('c18_snapshot_time_in_minutes', 'C18', P,
+     "                        target_time.to('sec').value\n                    ).take(0)\n\n            if isinstance(element, MotorBase):",
+     "                        target_time.to('min').value\n                    ).take(0)\n\n            if isinstance(element, MotorBase):"),
+    ('c18_snapshot_nearest', 'C18', P,
+     "                        y=[\n                            value.to(unit).value\n                            for value in element.time_variables[variable]\n                        ]\n                    )\n                    data.loc[element.name, f'{variable} ({unit})'] = \\",
+     "                        y=[\n                            value.to(unit).value\n                            for value in element.time_variables[variable]\n                        ], kind='nearest'\n                    )\n                    data.loc[element.name, f'{variable} ({unit})'] = \\"),
+    ('c18_export_swaps_torque_units', 'C18', 'gearpy/utils/export.py',
+     "        'driving torque': driving_torque_unit,\n        'load torque': load_torque_unit,",
+     "        'driving torque': load_torque_unit,\n        'load torque': driving_torque_unit,"),
+    ('c18_export_drops_last_row', 'C18', 'gearpy/utils/export.py',
+     "    data.to_csv(file_path, index=False)",
+     "    data.iloc[:-1].to_csv(file_path, index=False)"),
+    ('c18_snapshot_pwm_always', 'C18', P,
+     "                if 'pwm' in variables:\n",
+     "                if True:\n"),
+    ('c18_snapshot_stress_nested', 'C18', P,
+     "                        if element.bending_stress_is_computable:\n                            if 'bending stress' in variables:\n",
+     "                        if element.bending_stress_is_computable and 'tangential force' in variables:\n                            if 'bending stress' in variables:\n"),
+    ('c18_export_swallows_oserror', 'C18', 'gearpy/utils/export.py',
+     "    data.to_csv(file_path, index=False)",
+     "    try:\n        data.to_csv(file_path, index=False)\n    except OSError:\n        pass"),
 ]
 
 
